@@ -207,6 +207,12 @@ func refsIn(p *core.Program, n ast.Node, ss []subject) []apiRef {
 					switch o := p.Info.Uses[id].(type) {
 					case *types.PkgName:
 						r.real = o.Imported().Path() == s.PkgPath
+						// a type name that (through an alias) denotes the real package's type is the real type
+						if tn, ok := p.Info.Uses[e.Sel].(*types.TypeName); ok && !r.real {
+							if named, ok := types.Unalias(tn.Type()).(*types.Named); ok && named.Obj().Pkg() != nil && named.Obj().Pkg().Path() == s.PkgPath {
+								r.real = true
+							}
+						}
 						r.resolved = "package " + o.Imported().Path()
 						if gen.IsFakePath(o.Imported().Path()) {
 							r.resolved = "user package with the same API"
@@ -240,7 +246,7 @@ func classifyIdent(p *core.Program, id *ast.Ident, name string) apiRef {
 		r.resolved = "builtin"
 	case *types.TypeName:
 		r.real = o.Parent() == types.Universe
-		r.resolved = "type declared by the user"
+		r.resolved = "user type"
 		if r.real {
 			r.resolved = "predeclared type"
 		}
@@ -248,10 +254,12 @@ func classifyIdent(p *core.Program, id *ast.Ident, name string) apiRef {
 		r.resolved = "user function"
 	case *types.Var:
 		r.resolved = "user variable"
+	case *types.Const:
+		r.resolved = "user constant"
 	case nil:
 		r.resolved = "unresolved"
 	default:
-		r.resolved = fmt.Sprintf("%T", o)
+		r.resolved = fmt.Sprintf("user %T", o)
 	}
 	return r
 }
